@@ -117,7 +117,7 @@ def main():
         "hooks": {
             "guard": "verif",
             "enable": "go test -tags verif (the harness module replaces github.com/hashicorp/memberlist => /repo)",
-            "baseline_off_cmd": "cd /repo && GOFLAGS=-mod=mod GOPROXY=off go test -vet=off -count=1 -timeout 25m ./...",
+            "baseline_off_cmd": "cd /repo && GOPROXY=off go test -mod=mod -json -vet=off -count=1 -timeout 25m ./...",
             "source_commits": hook_commits,
             "add_only": True,
         },
